@@ -75,7 +75,7 @@ def simplify_val(v):
 
 
 class Body:
-    def __init__(self, facts, key, j):
+    def __init__(self, facts, key, j, ssa=True):
         self.facts = facts
         self.key = key
         self.j = j
@@ -84,6 +84,13 @@ class Body:
         self.locals = j["locals"]
         self.arg_count = j["arg_count"]
         self.n = len(self.blocks)
+        self.ssa_split = []
+        self._raw = None
+        self._reset()
+        if ssa:
+            self._split_reassigned()
+
+    def _reset(self):
         self._succ = None
         self._pred = None
         self._dom = None
@@ -91,6 +98,40 @@ class Body:
         self._defs = None
         self._resolving = None
         self._mut = None
+        self._ba = None
+
+    def _split_reassigned(self):
+        """flow-sensitive values for re-assigned user variables: see purlsa.ssa"""
+        cnt = {}
+        for bl in self.blocks:
+            if bl["cleanup"]:
+                continue
+            for st in bl["stmts"]:
+                if st["s"] == "assign" and not st["place"]["proj"]:
+                    cnt[st["place"]["l"]] = cnt.get(st["place"]["l"], 0) + 1
+            t = bl["term"]
+            if t["t"] == "call" and not t["dest"]["proj"]:
+                cnt[t["dest"]["l"]] = cnt.get(t["dest"]["l"], 0) + 1
+        if not any(c >= 2 and l > self.arg_count and self.locals[l]["ty"] != "bool" for l, c in cnt.items()):
+            return
+        from . import ssa
+        if not ssa.candidates(self):
+            return
+        import copy
+        self.blocks = copy.deepcopy(self.j["blocks"])
+        self.locals = copy.deepcopy(self.j["locals"])
+        self._reset()
+        self.ssa_split = ssa.split_locals(self)
+        self.n = len(self.blocks)
+        self._reset()
+
+    def raw_view(self):
+        """the body exactly as the compiler produced it (no version splitting) -- used by the cross-configuration diff"""
+        if not self.ssa_split:
+            return self
+        if self._raw is None:
+            self._raw = Body(self.facts, self.key, self.j, ssa=False)
+        return self._raw
 
     # ---------------------------------------------------------------- spans
     def file(self):
@@ -173,7 +214,7 @@ class Body:
 
     def _bool_assigns(self):
         """block -> {local: value} for constant assignments to materialised bool locals"""
-        if getattr(self, "_ba", None) is not None:
+        if self._ba is not None:
             return self._ba
         mats = {}
         for b in range(self.n):
